@@ -45,8 +45,22 @@ func genC17(seed uint64, tier string) *Plan {
 	D := r.rng(2, 4)
 	p.Knobs["D"], p.Knobs["Dlo"], p.Knobs["Dhi"], p.Knobs["Dscore"], p.Knobs["Dout"] = float64(D), 1, float64(D+6), 0, 0
 	p.Knobs["opp_ticks"] = 1 << 30
+	if r.chance(0.35) { // a slow application validator: messages can sit in validation across heartbeats
+		p.Knobs["nval_default"] = 1
+		p.Knobs["v0_inline"] = float64(r.intn(2))
+		p.Knobs["p_park"] = []float64{0.3, 0.7}[r.intn(2)]
+		p.Knobs["workers"] = 2
+	}
 	add := func(op string, a ...int64) { p.Items = append(p.Items, Item{Op: op, A: a}) }
 	add("node-sub", 0)
+	if r.chance(0.2) {
+		// the node starts isolated: it publishes and lets heartbeats pass before the first peer arrives
+		for k := r.rng(1, 3); k > 0; k-- {
+			add("node-pub", 0, int64([]int{16, 70}[r.intn(2)]))
+			add("adv", int64(r.rng(300, 1500)))
+		}
+		add("adv", int64(r.rng(1000, 9000)))
+	}
 	np := r.rng(4, 9)
 	for i := 0; i < np; i++ {
 		v := int64(r.intn(3)) // 1.3, 1.2, 1.1
@@ -85,7 +99,9 @@ func genC17(seed uint64, tier string) *Plan {
 		case x < 56:
 			add("ihaveseen", i, int64(r.rng(1, 4)))
 		case x < 66:
-			add("idwk", i, int64(r.intn(8)), int64(r.rng(1, 7)))
+			add("idwk", i, int64(r.intn(8)), int64(r.rng(1, 7)), int64(r.rng(1, 3))) // ids spread over 1..3 IDONTWANT entries
+		case x < 70 && p.Knobs["nval_default"] > 0:
+			add("release", int64(r.intn(4)))
 		case x < 82:
 			add("adv", int64(r.rng(300, 1400)))
 		case x < 88:
@@ -188,6 +204,25 @@ func runC17(s *sim) {
 			}
 		}
 	}
+	// local publications are part of the model even when nobody is there to receive them
+	traceCur := 0
+	noteLocalPublishes := func(tick uint64) {
+		w.n.mu.Lock()
+		evs := w.n.trace[traceCur:]
+		traceCur = len(w.n.trace)
+		w.n.mu.Unlock()
+		for _, r := range evs {
+			// DELIVER_MESSAGE is traced when a message (local or remote) leaves validation and is handed
+			// to the router, which is the moment it enters the message cache
+			if r.ev.GetType() == pb.TraceEvent_DELIVER_MESSAGE {
+				id := string(r.ev.GetDeliverMessage().GetMessageID())
+				if forwarded[id] == nil {
+					forwarded[id] = &fwd{tick: tick, topic: r.ev.GetDeliverMessage().GetTopic()}
+					order = append(order, id)
+				}
+			}
+		}
+	}
 	eligibleAsker := func(sn *snapshot, id peer.ID) bool {
 		return sn.direct[id] || sn.scores[id] >= gs.graylistThreshold
 	}
@@ -284,7 +319,23 @@ func runC17(s *sim) {
 			ids = append(ids, order[(int(it.a(1))+k)%len(order)])
 		}
 		ctlRPCs[fp.id]++
-		fp.send(rpcIDontWant(ids...))
+		ne := int(it.a(3))
+		if ne <= 1 || len(ids) < 2 {
+			fp.send(rpcIDontWant(ids...))
+		} else {
+			// the same ids spread over several IDONTWANT entries of one RPC: the per-RPC cap counts them all
+			s.probe("idontwant_multi_entry")
+			rpc := &pb.RPC{Control: &pb.ControlMessage{}}
+			per := (len(ids) + ne - 1) / ne
+			for k := 0; k < len(ids); k += per {
+				e := k + per
+				if e > len(ids) {
+					e = len(ids)
+				}
+				rpc.Control.Idontwant = append(rpc.Control.Idontwant, &pb.ControlIDontWant{MessageIDs: ids[k:e]})
+			}
+			fp.send(rpc)
+		}
 		if !eligibleAsker(pre, fp.id) {
 			return
 		}
@@ -438,6 +489,7 @@ func runC17(s *sim) {
 			return
 		}
 		post := w.snapshot()
+		noteLocalPublishes(pre.ticks)
 		noteForwards(post)
 		if it.Op == "pub" || it.Op == "followup" {
 			var fp *fakePeer
